@@ -282,10 +282,10 @@ Fixpoint reorg_collect (fuel : nat) (n : node) (cb : block) (acc : list block) :
   | S f =>
       let ch := prev_hash cb in
       cb' <- of_opt (get_block n ch) 721 ;;
-      _ <- guard (negb (b_height cb' =? 0)) 722 ;;
       if match get_topo n (b_height cb') with Some th => th =? ch | None => false end
       then Ok (ch, acc)
-      else reorg_collect f n cb' (acc ++ [cb'])
+      else _ <- guard (negb (b_height cb' =? 0)) 722 ;;
+           reorg_collect f n cb' (acc ++ [cb'])
   end.
 
 (* step 2: disconnect main-chain blocks down to the common block *)
